@@ -151,10 +151,14 @@ Process(c, tg, note) ==
                       IN IF a \in note THEN Append(q2, ack) ELSE q2]
   /\ UNCHANGED <<nretry, msgs, emitted, shown, nshown, pend, asked, seen, open, faults, hit>>
 
-(* The server delivers the j-th stanza queued for c (j = 1: queue order).          *)
+(* The server delivers the j-th stanza queued for c (j = 1: queue order).  Stanzas  *)
+(* that originate from one party reach a recipient in the order that party sent     *)
+(* them (the ratchets of first contact assume it); everything else may overtake.    *)
 RemoveAt(q, j) == SubSeq(q, 1, j - 1) \o SubSeq(q, j + 1, Len(q))
+SameSource(x, y) == x.k # "ctl" /\ y.k # "ctl" /\ x.p = y.p
 DeliverAt(c, j, fault, out) ==
   /\ j \in 1..Len(outq[c])
+  /\ \A m \in 1..(j - 1) : ~SameSource(outq[c][m], outq[c][j])
   /\ LET x == outq[c][j]
          dl == IF fault = "corrupt" THEN [x EXCEPT !.f = 1] ELSE x
      IN /\ fault # "" => /\ x.k = "msg" /\ <<c, x.i>> \notin hit /\ faults < MaxFaults
